@@ -114,6 +114,53 @@ theorem C03_partial_identity_headers_authenticated (c : Cfg) (id : Ident) (cooki
       rw [hget_setAll_not_mem _ _ _ (fun p hp e => hinj ⟨p.2, by rw [← e]; exact hp⟩)]
       exact hget_foldl_hdel_mem identityHeaders h _ (by simp [identityHeaders])
 
+/-- **Never a client-chosen identity** (full strength, no hypothesis on `Connection`): on an authenticated pass each of
+`X-Forwarded-User` / `-Email` / `-Groups` reaches the upstream either with exactly the session's value or not at all —
+for every client header map, cookie list and `Connection` token list. The client can make the reverse proxy *drop* a
+header (`C03_connection_refuted`), never make it carry a value of the client's choosing. -/
+theorem C03_identity_value_or_absent (c : Cfg) (id : Ident) (cookies : List (String × String))
+    (render : String × String → String) (conn : List String) (h : HMap) :
+    (hget (pipeline c (some id) cookies render conn h) "X-Forwarded-User" = [id.user] ∨
+      hget (pipeline c (some id) cookies render conn h) "X-Forwarded-User" = []) ∧
+    (hget (pipeline c (some id) cookies render conn h) "X-Forwarded-Email" = [id.email] ∨
+      hget (pipeline c (some id) cookies render conn h) "X-Forwarded-Email" = []) ∧
+    (hget (pipeline c (some id) cookies render conn h) "X-Forwarded-Groups" = [id.groups] ∨
+      hget (pipeline c (some id) cookies render conn h) "X-Forwarded-Groups" = []) := by
+  have through : ∀ k, k ≠ "Cookie" → k ∉ hopHeaders → ∀ m : HMap,
+      hget (stripHop conn (deleteCookie c.cookieName cookies render m)) k = hget m k ∨
+      hget (stripHop conn (deleteCookie c.cookieName cookies render m)) k = [] := by
+    intro k hne hnh m
+    unfold stripHop
+    rw [hget_foldl_hdel_not_mem hopHeaders _ k hnh]
+    by_cases hc : k ∈ conn
+    · exact Or.inr (hget_foldl_hdel_mem conn _ k hc)
+    · left
+      rw [hget_foldl_hdel_not_mem conn _ k hc]
+      unfold deleteCookie; simp only
+      split
+      · exact hget_hdel_ne _ "Cookie" k hne
+      · exact hget_hset_ne _ "Cookie" k _ hne
+  unfold pipeline
+  simp only
+  refine ⟨?_, ?_, ?_⟩
+  · rcases through "X-Forwarded-User" (by decide) (by decide) (injectIdentity c.inject id (scrub h)) with e | e
+    · left; rw [e]
+      unfold injectIdentity; simp only
+      rw [hget_hset_ne _ _ _ _ (by decide), hget_hset_ne _ _ _ _ (by decide)]
+      cases id.accessToken with
+      | none => exact hget_hset _ _ _
+      | some t => simp only; rw [hget_hset_ne _ _ _ _ (by decide)]; exact hget_hset _ _ _
+    · exact Or.inr e
+  · rcases through "X-Forwarded-Email" (by decide) (by decide) (injectIdentity c.inject id (scrub h)) with e | e
+    · left; rw [e]
+      unfold injectIdentity; simp only
+      rw [hget_hset_ne _ _ _ _ (by decide)]; exact hget_hset _ _ _
+    · exact Or.inr e
+  · rcases through "X-Forwarded-Groups" (by decide) (by decide) (injectIdentity c.inject id (scrub h)) with e | e
+    · left; rw [e]
+      unfold injectIdentity; simp only
+      exact hget_hset _ _ _
+    · exact Or.inr e
 /-- Full strength is **refuted**: a client that sends `Connection: X-Forwarded-Email` makes the reverse proxy strip the
 header the proxy has just set. KNOWN FINDING `connection-nominated-headers`. -/
 theorem C03_connection_refuted :
